@@ -10,7 +10,7 @@
 (*                 parse() did with the file (mode clean) or with a tampered file / a wrong KEK (mode tamper / *)
 (*                 wrongkek): it returned content (projected field by field, command by command) or raised.    *)
 (*                 A behaviour iff  returned /\ content = ref,  or  raised /\ mode # clean.                    *)
-EXTENDS Sb2Rom, Json, IOUtils
+EXTENDS Sb2Rom, Sb2Operands, Json, IOUtils
 Traces == ndJsonDeserialize(IOEnv.TRACE_FILE)
 VARIABLES tid, l,
           pend,     \* clause markers that must be consumed next
@@ -31,33 +31,9 @@ Bound == Tr.kind = "rom"       \* kind "anchor": a golden file of the reference 
 Adv == l' = l + 1 /\ UNCHANGED tid
 NoP == UNCHANGED <<psec, pcmd>>
 Min(a, b) == IF a < b THEN a ELSE b
-Zero == <<0, 0>>
 
-\* ---- command encoding: what the ROM must see (raw header r) for an abstract command c
-\* c = [k, a, n, x, f, m, d]: address, length / count / SP / word1 / version, argument / pattern / word2, small flag, <<group, device>>, data bytes
-MemFlags(m) == m[2] * 256 + m[1] * 16            \* device id in flags bits 8..15, group id in bits 4..7
-Rep(p) == IF p[1] = 0 /\ p[2] < 256 THEN <<p[2] * 257, p[2] * 257>>      \* byte pattern replicated to a word
-          ELSE IF p[1] = 0 THEN <<p[2], p[2]>>                            \* half-word pattern replicated
-          ELSE p
-Matches(r, c) ==
-  CASE c.k = "nop"     -> r.tag = 0
-    [] c.k = "load"    -> /\ r.tag = 2 /\ r.flags = MemFlags(c.m) /\ r.addr = c.a
-                          /\ r.cnt[1] < 32768 /\ W(r.cnt) \in {Len(c.d), Align16(Len(c.d))}     \* padded to the cipher block
-                          /\ Len(r.payload) = r.payloadLen /\ r.payloadLen >= Len(c.d)
-                          /\ SubSeq(r.payload, 1, Len(c.d)) = c.d                               \* the given bytes are a prefix
-    [] c.k = "fill"    -> r.tag = 3 /\ r.addr = c.a /\ r.cnt = c.n /\ r.dat = (IF c.f = 1 THEN c.x ELSE Rep(c.x))
-    [] c.k = "jump"    -> /\ r.tag = 4 /\ r.addr = c.a /\ r.dat = c.x
-                          /\ IF c.f = 1 THEN r.flags = 2 /\ r.cnt = c.n ELSE r.flags = 0
-    [] c.k = "call"    -> r.tag = 5 /\ r.addr = c.a /\ r.dat = c.x
-    [] c.k = "erase"   -> r.tag = 7 /\ r.flags = c.f + MemFlags(c.m) /\ r.addr = c.a /\ r.cnt = c.n
-    [] c.k = "reset"   -> r.tag = 8
-    [] c.k = "enable"  -> r.tag = 9 /\ r.flags = MemFlags(c.m) /\ r.addr = c.a /\ r.cnt = c.n
-    [] c.k = "prog"    -> /\ r.tag = 10 /\ r.flags = c.m[2] * 256 + (IF c.x = Zero THEN 0 ELSE 1)
-                          /\ r.addr = c.a /\ r.cnt = c.n /\ r.dat = c.x
-    [] c.k = "vercheck" -> r.tag = 11 /\ r.addr = <<0, c.f>> /\ r.cnt = c.n
-    [] c.k = "ks_to_nv" -> r.tag = 12 /\ r.flags = c.m[2] * 256 /\ r.addr = c.a
-    [] c.k = "ks_from_nv" -> r.tag = 13 /\ r.flags = c.m[2] * 256 /\ r.addr = c.a
-    [] OTHER -> FALSE
+\* ---- command encoding: Matches(r, c) - what the ROM must see (raw header r) for an abstract command c - is defined in Sb2Operands
+\* (width classes of the operands, pattern replication of FILL, memory-id flags); its operand case space and lemmas are in Sb2OperandsMC
 
 \* ---- header clauses
 HeaderMarkers == <<"version", "flags", "product_version", "component_version", "build_number", "timestamp", "nonce">>
